@@ -1,9 +1,11 @@
 //! momsim — deterministic simulator with fault injection for alphal00p/momtrop.
 //! See /verif/DESIGN.md.
 
+mod c16;
 mod c17;
 mod ctx;
 mod driver;
+mod exact;
 mod framework;
 mod hashkeys;
 mod model;
@@ -25,6 +27,7 @@ fn props() -> Vec<Box<dyn Property>> {
     vec![
         Box::new(prop_sc::ScenarioProp { flavor: c17::Flavor::C17 }),
         Box::new(prop_sc::ScenarioProp { flavor: c17::Flavor::C18 }),
+        Box::new(c16::C16),
     ]
 }
 
@@ -126,6 +129,16 @@ fn meta_for(id: &str) -> driver::Meta {
             level: "exploration",
             rule: "each run = one seeded restart scenario (persist / drop / restore through SimStore with seeded legal read behaviour or serde_json, optionally published to concurrent callers, up to several generations); oracle = restored image == pristine image and every later sample bit-equal to the never-serialised reference. Non-trivial = at least one restart executed; distinct = distinct digest of (context-switch sequence, all results)".into(),
             assumptions: common_assume,
+            components: components(),
+        },
+        "C16" => driver::Meta {
+            level: "fault_enumeration",
+            rule: "each run = one matrix (fixed textbook breakdowns, then seeded: SPD gram, semidefinite, indefinite, graded, Hilbert, 2^+-k scaled, special diagonals, graph L matrices, nearly singular, rank one, diagonally dominant; dim 1..6 quick / 1..8 thorough) x 11 tolerances fault-free, plus arithmetic faults (NaN, +-inf, zero, perturb 2^-4/-12/-24/-40, negate) at every non-detector seam event for small dims (exhaustive) or sampled for larger; every 4th run is the sample leg (graph, x-space points incl. extreme coordinates, 6 tolerances, metadata on/off, faults before the first detector event). Oracle on every Ok: determinant != 0; with Some(tol): no NaN in the decomposition (or in u), and the exactly recomputed L21 distance <= tol + rounding slack. A case is non-trivial if a fault fired or it is a fault-free evaluation; distinct = distinct (matrix/point, tolerance, fired fault set, outcome)".into(),
+            assumptions: vec![
+                "faults are placed only on events outside the stability test's own arithmetic (a corrupted detector is outside the property)".into(),
+                "the distance oracle allows the rounding slack 8 n 2^-53 || |inverse||matrix| + I ||_21 of the library's own float evaluation".into(),
+                "SimF is bit-exact f64 (self-checked by the C17 reference executions)".into(),
+            ],
             components: components(),
         },
         _ => driver::Meta { level: "exploration", rule: String::new(), assumptions: vec![], components: components() },
